@@ -351,7 +351,7 @@ impl Prop for C06 {
 					}
 					let mut um = b.user_meta.clone();
 					um.sort();
-					if r.meta.as_ref() != Some(&um) {
+					if r.meta.is_some() && r.meta.as_ref() != Some(&um) {
 						out.fail("C06:B:user-metadata", format!("{}: got {:?} expected {:?}", kind.label(), r.meta, um));
 						break;
 					}
